@@ -124,6 +124,7 @@ func (m *slotModel) commit(now, slot uint64, key string, signer types.AuthorityI
 type slotOracle struct {
 	k      *kernel.K
 	fam    []*slotModel
+	shadow *slotModel // a table that never prunes: only tells (as a probe) where pruning decided the outcome
 	proofs int
 	prunes int
 }
@@ -161,26 +162,42 @@ func (o *slotOracle) observe(via string, now, slot uint64, hdr *types.Header, si
 			k.Violate("C27", "proof-content", via+"/second-header", "second header of the proof is not the checked header (slot %d, number %d vs %d)", slot, proof.SecondHeader.Number, hdr.Number)
 		}
 	}
-	anyAgree := false
+	// which members of the family agree with the observed result?
+	aliveBefore := 0
+	for _, m := range o.fam {
+		if m.alive {
+			aliveBefore++
+		}
+	}
+	var agree []*slotModel
+	var outcomes []slotOutcome
 	for _, m := range o.fam {
 		if !m.alive {
 			continue
 		}
 		e := m.peek(now, slot, key, signer)
-		agree := (e.what == "proof") == (proof != nil)
-		if agree && proof != nil && !sameHeader(&proof.FirstHeader, e.first) {
-			agree = false
+		ok := (e.what == "proof") == (proof != nil)
+		if ok && proof != nil && !sameHeader(&proof.FirstHeader, e.first) {
+			ok = false
 		}
 		if writeFailed && e.what != "recorded" {
-			agree = false // a write was attempted where this table expects none
+			ok = false // a write was attempted where this table expects none
 		}
-		if !agree {
+		if ok {
+			agree = append(agree, m)
+			outcomes = append(outcomes, e)
+		}
+	}
+	anyAgree := len(agree) > 0
+	if anyAgree {
+		for _, m := range o.fam {
 			m.alive = false
-			continue
 		}
-		anyAgree = true
-		if e.what == "recorded" && !writeFailed {
-			m.commit(now, slot, key, signer, hdr, e)
+		for i, m := range agree {
+			m.alive = true
+			if outcomes[i].what == "recorded" && !writeFailed {
+				m.commit(now, slot, key, signer, hdr, outcomes[i])
+			}
 		}
 	}
 	if !anyAgree {
@@ -212,6 +229,20 @@ func (o *slotOracle) observe(via string, now, slot uint64, hdr *types.Header, si
 	}
 	if !o.fam[0].alive {
 		k.Probe("substrate-edge-choice-contradicted")
+	}
+	if len(agree) < aliveBefore {
+		k.Probe("exact-bound-decided-an-outcome")
+	}
+	if o.shadow == nil {
+		o.shadow = &slotModel{name: "never-prune", window: slotCapacity, pruneAbove: ^uint64(0), table: map[uint64][]slotEntry{}, alive: true}
+	}
+	if sh := o.shadow.peek(now, slot, key, signer); true {
+		if sh.what != exp.what {
+			k.Probe("pruning-decided-outcome-" + exp.what + "-instead-of-" + sh.what)
+		}
+		if sh.what == "recorded" && exp.what == "recorded" && !writeFailed {
+			o.shadow.commit(now, slot, key, signer, hdr, sh)
+		}
 	}
 	switch exp.what {
 	case "proof":
